@@ -3,7 +3,7 @@
    (b) instance: every direct use site (property, array element, map value whose type IS the enumeration) has the
        Python type and hook the generic lemmas need;  (c) generic lemmas of LSP.SemThy instantiated at every site. *)
 From Coq Require Import Lia.
-From LSP Require Import Base MM Sem SemThy Image ImageThy.
+From LSP Require Import Base MM Sem SemThy Image ImageThy HookFrag.
 From Gen Require Import MMData PkgData.
 
 Theorem C13_image : W_img mm Sg alias_objects plain_classes = true.
@@ -24,11 +24,9 @@ Definition site_type (k : site) (f : fld) : option pty :=
 Definition site_enum (q : prop) : option (site * string) :=
   match p_type q with
   | TRef n => Some (SiteProp, n) | TArr (TRef n) => Some (SiteElem, n) | TMap _ (TRef n) => Some (SiteMapVal, n) | _ => None end.
-Definition passthrough_b (h : hook) : bool :=
-  match h with
-  | TIf (CIsNone HObj) (TRet RNone) (TIf (CIsPrim HObj) (TRet (RSelf HObj)) _) => true
-  | TRet (RSelf HObj) => true            (* the identity hook *)
-  | _ => false end.
+(* pass-through on primitives, decided semantically: the hook's leaf at both primitive shapes is the value itself
+   (LSP.HookFrag.prim_passthrough_b, sound by prim_passthrough_sound) — whatever its conditions look like *)
+Definition passthrough_b (h : hook) : bool := prim_passthrough_b h.
 Definition has_enum_member (ms : list pty) (e : string) : bool := existsb (fun t => pty_eqb t (PyEnum e)) ms.
 Definition site_ok (q : prop) (f : fld) : bool :=
   match site_enum q with
@@ -55,16 +53,6 @@ Definition c13_ok (s : MM.structure) (q : prop) : bool :=
 Theorem C13_use_sites : forallb (fun s => forallb (c13_ok s) (flat mm (s_name s))) (structures mm) = true.
 Proof. vm_compute. reflexivity. Qed.
 
-Lemma passthrough_b_sound h : passthrough_b h = true -> passthrough_hook h.
-Proof.
-  destruct h as [c a b|r|]; try discriminate.
-  - destruct c; try discriminate. destruct e; try discriminate.
-    destruct a; try discriminate. destruct r; try discriminate. destruct b as [c' a' b'| |]; try discriminate.
-    destruct c'; try discriminate. destruct e; try discriminate. destruct a'; try discriminate. destruct r; try discriminate.
-    destruct e; try discriminate. intros _. left. exists b'. reflexivity.
-  - destruct r; try discriminate. destruct e; try discriminate. intros _. right. reflexivity.
-Qed.
-
 Section AnyStr.
 Variable pystr : json -> string.
 
@@ -75,7 +63,7 @@ Theorem C13_open_site_accepts_and_roundtrips : forall ms h rec urec j,
   step Sg pystr rec (PyUnion ms) j = Ok (embed j) /\ ustep Sg urec (Some (PyUnion ms)) (embed j) = Ok j.
 Proof.
   intros ms h rec urec j L P N J. split.
-  - apply open_site_accepts with (h := h); auto using passthrough_b_sound.
+  - cbn [Sem.step]. rewrite L. apply prim_passthrough_sound; assumption.
   - apply open_site_roundtrip; assumption.
 Qed.
 
